@@ -476,6 +476,7 @@ pub fn run(ctx: &mut Ctx) {
     let lim = GenLimits { er_max: 9, big_min: 20, big_max: ctx.tier.pick(140, 300) };
     let schedule: Vec<(&str, u64)> = vec![
         ("big-conn", if q { 450 } else { 4_000 }),
+        ("big-two", if q { 120 } else { 1_500 }),
         ("big-union", if q { 330 } else { 3_000 }),
         ("closed-form", if q { 120 } else { 1_000 }),
         ("er", if q { 360 } else { 3_000 }),
